@@ -21,7 +21,10 @@ def fingerprint(sc):
     return hashlib.sha256(json.dumps([sc["opt"], ops], sort_keys=True).encode()).hexdigest()[:16]
 
 
-def run_families(ctx, scenarios, tag, bound=None, require_done=True):
+NO_TEL = {"Tel"}   # platform lifecycle events are bound by the C15 check only
+
+
+def run_families(ctx, scenarios, tag, bound=NO_TEL, require_done=True):
     """Run scenarios, validate traces, fill evidence; hangs of the driver (not of an invocation) are inconclusive."""
     build_harness()
     summary, outcomes, outdir = runner.run_and_validate(ctx, scenarios, tag, bound=bound)
